@@ -269,10 +269,23 @@ func (c *Persistent) IDs() (ids []string) {
 	}
 
 	for _, mac := range c.MACs {
-		ids = append(ids, mac.String())
+		ids = append(ids, macToID(mac))
 	}
 
 	return append(ids, c.ClientIDs...)
+}
+
+// macToID returns the textual form of mac, which is read as the same hardware
+// address when it is set as an ID.
+func macToID(mac net.HardwareAddr) (id string) {
+	id = mac.String()
+	if len(mac) == 8 {
+		// The colon-separated form of an EUI-64 is a valid IPv6 address as
+		// well, and IDs are tried as IP addresses first.
+		id = strings.ReplaceAll(id, ":", "-")
+	}
+
+	return id
 }
 
 // IDsLen returns a length of ClientIDs.
